@@ -1,7 +1,9 @@
 (* C03 - the resolver selects the deepest command named by the leading tokens.
    leading toks = the tokens before the first empty token, double dash or option-like token;
    descends named l b = following the names/aliases l from the collection named reaches command b. *)
-From Clikit Require Import Base.Prelude Base.Res Model.Conv Model.Format Model.Parser Model.Resolver Proofs.ResolverLemmas.
+From Coq Require Import Lia.
+From Clikit Require Import Base.Prelude Base.Res Model.Conv Model.Flags Model.Format Model.Parser Model.Resolver Proofs.ResolverLemmas
+  Proofs.ResolverAliasLemmas.
 
 (* The walk reaches the command named by the LONGEST prefix of the leading tokens that names a path:
    a prefix l1 descends to b, and the next leading token (if any) names no sub-command of b ... *)
@@ -13,6 +15,27 @@ Proof.
   intros named names b p H. destruct (walk_some named None names b p H) as [[Hc _]|H']; [discriminate|exact H'].
 Qed.
 Print Assumptions walk_deepest.
+(* The name path returned with it (what Application.resolve_command reports): the names - not the spellings used - of
+   the commands passed on the way down, one per token of that prefix. *)
+Theorem walk_reports_the_names_on_the_path : forall named names b p,
+  walk named None names = Ok (Some (b, p)) ->
+  exists l1 l2, names = l1 ++ l2 /\ descendsP named l1 b p /\ descends named l1 b /\ length p = length l1 /\
+                match l2 with [] => True | n :: _ => coll_contains (named_of (b_subs b)) n = false end.
+Proof.
+  intros named names b p H. destruct (walk_path names named None b p H) as [[Hc _]|(l1 & l2 & q & E & Hd & Hp & Hn)]; [discriminate|].
+  cbn in Hp. subst q. exists l1, l2. destruct (descendsP_descends _ _ _ _ Hd). auto.
+Qed.
+Print Assumptions walk_reports_the_names_on_the_path.
+(* The walk never fails: a collection built from a list of commands never takes the KeyError branch of its lookup
+   (every entry of the alias index names a command of the collection). *)
+Theorem walk_never_fails : forall a toks, exists w, walk (named_of (ap_cmds a)) None (leading toks) = Ok w.
+Proof. intros. unfold named_of. apply walk_total. Qed.
+Print Assumptions walk_never_fails.
+Theorem lookup_finds_a_sibling : forall l n, coll_contains (coll_of l) n = true ->
+  exists b, coll_get (coll_of l) n = Ok b /\ In b l /\
+            (b_name b = n \/ exists c, In c l /\ In n (b_aliases c) /\ b_name c = b_name b).
+Proof. exact coll_get_total. Qed.
+Print Assumptions lookup_finds_a_sibling.
 (* ... and then no longer prefix names any path, and the path reached is unique. *)
 Theorem no_longer_prefix_names_a_path : forall named l1 b, descends named l1 b ->
   forall n l3 b', coll_contains (named_of (b_subs b)) n = false -> ~ descends named (l1 ++ n :: l3) b'.
@@ -40,6 +63,31 @@ Theorem default_choice_first_parsable : forall ds1 d a ds2 toks,
 Proof. exact pick_default_first_parsable. Qed.
 Print Assumptions default_choice_first_parsable.
 
+(* ... else (none parsable) the FIRST default with its parse error; a default whose parse fails with anything but
+   CannotParseArgs (NoSuchOption, ValueError of a conversion) ends the resolution at once with that error. *)
+Theorem default_choice_none_parsable : forall d ds toks,
+  Forall (cannot toks) (d :: ds) -> pick_default (d :: ds) toks None = Ok (Some (d, Err CannotParse)).
+Proof. intros d ds toks H. exact (pick_default_all_cannot (d :: ds) toks None H). Qed.
+Print Assumptions default_choice_none_parsable.
+Theorem default_choice_no_defaults : forall toks, pick_default [] toks None = Ok None.
+Proof. reflexivity. Qed.
+Print Assumptions default_choice_no_defaults.
+Theorem default_choice_other_error_leaves : forall ds1 d ds2 toks k, Forall (cannot toks) ds1 ->
+  parse (b_fmt d) (b_lenient d) toks = Err k -> k <> CannotParse ->
+  pick_default (ds1 ++ d :: ds2) toks None = Err k.
+Proof. intros. apply pick_default_error_leaves; assumption. Qed.
+Print Assumptions default_choice_other_error_leaves.
+(* Every successful selection, completely: the command reached by the walk when it has no default sub-command, else
+   its first default sub-command that parses the line (the ones before it cannot). *)
+Theorem selection_shape : forall a toks b p q f x,
+  walk (named_of (ap_cmds a)) None (leading toks) = Ok (Some (b, p)) ->
+  resolve a toks = Ok (q, f, x) ->
+  (defaults_of (b_subs b) = [] /\ q = p /\ f = b_fmt b /\ parse (b_fmt b) (b_lenient b) toks = Ok x) \/
+  (exists ds1 d ds2, defaults_of (b_subs b) = ds1 ++ d :: ds2 /\ Forall (cannot toks) ds1 /\
+                     parse (b_fmt d) (b_lenient d) toks = Ok x /\ q = p ++ [b_name d] /\ f = b_fmt d).
+Proof. exact resolve_shape. Qed.
+Print Assumptions selection_shape.
+
 Theorem resolve_empty : forall a toks, leading toks = [] ->
   resolve a toks =
     (do d <- pick_default (defaults_of (ap_cmds a)) toks None;
@@ -53,18 +101,147 @@ Theorem resolve_unknown : forall a toks n r,
 Proof. exact resolve_unknown_lemma. Qed.
 Print Assumptions resolve_unknown.
 
-(* Replacing a name on the path by another spelling that looks up the same command changes nothing. *)
-Theorem alias_invariant : forall named cur n n' r,
-  coll_contains named n = true -> coll_contains named n' = true -> coll_get named n = coll_get named n' ->
-  walk named cur (n :: r) = walk named cur (n' :: r).
-Proof. exact walk_alias. Qed.
+(* Replacing a name on the path by any of its aliases.  The earlier statement took `coll_get named n = coll_get named n'`
+   as a hypothesis - the clause itself.  What holds: when the names and aliases of the (non-anonymous) siblings are
+   pairwise distinct at every level (the code does not enforce this: Command.add_sub_command has a TODO, and
+   ConsoleApplication.add_command checks the new NAME only), the name and every alias of a sibling look up that sibling,
+   so two spellings of the same path (respells: level by level any key - name or alias - of the same command) walk to the
+   same command and the same reported path, whatever follows. *)
+Theorem alias_looks_up_its_command : forall l b k, siblings_distinct l -> In b l -> In k (keys b) ->
+  coll_contains (coll_of l) k = true /\ coll_get (coll_of l) k = Ok b.
+Proof. intros l b k Hd Hb Hk. split; [apply (contains_key l b k Hb Hk)|apply (get_by_key l b k Hd Hb Hk)]. Qed.
+Print Assumptions alias_looks_up_its_command.
+Theorem alias_invariant : forall l names names', tree_distinct l -> respells l names names' ->
+  forall cur, walk (named_of l) cur names = walk (named_of l) cur names'.
+Proof. intros l names names' Ht Hr. apply walk_respelled; assumption. Qed.
 Print Assumptions alias_invariant.
+(* PARTIAL at the level of resolve: the default sub-command below the command reached is chosen by parsing the whole
+   line, command-name tokens included; that the parser treats two spellings of the path alike is C01's subject
+   (parse_spells), not restated here.  With it given, the selections agree: *)
+Theorem alias_invariant_resolve_partial : forall a toks toks',
+  tree_distinct (ap_cmds a) -> respells (ap_cmds a) (leading toks) (leading toks') ->
+  (forall f len, parse f len toks = parse f len toks') ->
+  resolve a toks = resolve a toks'.
+Proof.
+  intros a toks toks' Ht Hr Hp. unfold resolve. cbv zeta. rewrite (walk_respelled _ _ _ Hr Ht None).
+  assert (forall ds first, pick_default ds toks first = pick_default ds toks' first) as Hpd.
+  { induction ds as [|d r IH]; intros first; cbn [pick_default]; [reflexivity|]. rewrite Hp. destruct (parse _ _ toks') as [?|[]]; auto. }
+  destruct (walk (named_of (ap_cmds a)) None (leading toks')) as [[[b p]|]|k]; cbn [bind]; [| |reflexivity].
+  - rewrite Hpd. destruct (pick_default _ toks' None) as [[[dc r]|]|k]; cbn [bind]; auto. now rewrite Hp.
+  - inversion Hr as [? ? E1 E2|? b k k' r r' Hb Hk Hk' Hr' E1 E2]; [|reflexivity]. now rewrite Hpd.
+Qed.
+Print Assumptions alias_invariant_resolve_partial.
+(* Without distinctness the clause is FALSE of the model (and of the code: CommandCollection's alias index is last
+   writer wins): siblings add[x] and del[x] - the alias x of add selects del. *)
+Theorem alias_invariant_without_distinctness_refuted :
+  exists l b a, In b l /\ In a (b_aliases b) /\ coll_get (coll_of l) a <> Ok b.
+Proof.
+  exists [BCmd [97;100;100]%N [[120]%N] false false false (Fmt None [] [] [] [] [] [] false false) [];
+          BCmd [100;101;108]%N [[120]%N] false false false (Fmt None [] [] [] [] [] [] false false) []],
+         (BCmd [97;100;100]%N [[120]%N] false false false (Fmt None [] [] [] [] [] [] false false) []), [120]%N.
+  split; [left; reflexivity|]. split; [left; reflexivity|]. vm_compute. intros K. discriminate K.
+Qed.
+Print Assumptions alias_invariant_without_distinctness_refuted.
 
-(* Adding options after the path / anything after the double dash: the leading tokens, hence the
-   named path, do not change. *)
+(* Adding options after the path / anything after the double dash: the leading tokens, hence the NAMED command the
+   walk reaches, do not change ... *)
 Theorem options_invariant : forall l o r, forallb lead_ok l = true -> starts_dash o = true -> leading (l ++ o :: r) = l.
 Proof. intros l o r Hl Ho. apply leading_cut; [exact Hl | apply option_is_stopper, Ho]. Qed.
 Print Assumptions options_invariant.
+Theorem options_keep_the_named_command : forall named l o r, forallb lead_ok l = true -> starts_dash o = true ->
+  walk named None (leading (l ++ o :: r)) = walk named None (leading l).
+Proof. exact walk_options_invariant. Qed.
+Print Assumptions options_keep_the_named_command.
 Theorem tail_invariant : forall l t t', leading (l ++ [DASH; DASH] :: t) = leading (l ++ [DASH; DASH] :: t').
 Proof. intros. apply leading_behind_stopper, dd_is_stopper. Qed.
 Print Assumptions tail_invariant.
+Theorem tail_keeps_the_named_command : forall named l (t : list str), forallb lead_ok l = true ->
+  walk named None (leading (l ++ [DASH; DASH] :: t)) = walk named None (leading l).
+Proof. intros named l t Hl. f_equal. rewrite (leading_all l Hl). exact (leading_cut l _ t Hl dd_is_stopper). Qed.
+Print Assumptions tail_keeps_the_named_command.
+(* ... and the SELECTION does not change either when the command reached has at most one default sub-command: two lines
+   with the same leading tokens that both resolve select the same command. *)
+Theorem same_leading_tokens_same_selection : forall a toks toks' b p q f x q' f' x',
+  leading toks = leading toks' ->
+  walk (named_of (ap_cmds a)) None (leading toks) = Ok (Some (b, p)) ->
+  length (defaults_of (b_subs b)) <= 1 ->
+  resolve a toks = Ok (q, f, x) -> resolve a toks' = Ok (q', f', x') -> q = q' /\ f = f'.
+Proof. exact same_leading_same_selection. Qed.
+Print Assumptions same_leading_tokens_same_selection.
+
+(* With two default sub-commands the clause "adding options after the path never changes the selection" (and "tokens
+   after -- never take part in it") is FALSE of the model, and of the code (same lines, same answers): the default
+   sub-command is the first one that PARSES the line, and options / the tail decide that.
+   Tree: srv [s] { add [a] <v?>, del [d], x1 (default, anonymous, --flag), x2 (default, anonymous, --flag=VALUE, <v?>) }, top (default). *)
+Definition s_srv : str := [115;114;118]%N. Definition s_s : str := [115]%N.
+Definition s_add : str := [97;100;100]%N.  Definition s_a : str := [97]%N.
+Definition s_del : str := [100;101;108]%N. Definition s_d : str := [100]%N.
+Definition s_x1 : str := [120;49]%N.       Definition s_x2 : str := [120;50]%N.
+Definition s_flag : str := [102;108;97;103]%N. Definition s_top : str := [116;111;112]%N.
+Definition o_nov : opt := {| o_long := s_flag; o_short := None; o_flags := opt_defaults 4 false; o_default := VNone |}.
+Definition o_req : opt := {| o_long := s_flag; o_short := None; o_flags := opt_defaults 8 false; o_default := VNone |}.
+Definition a_opt : arg := {| a_name := [118]%N; a_flags := arg_defaults 2; a_default := VNone |}.
+Definition cfg : appcfg :=
+  {| ac_opts := []; ac_args := [];
+     ac_cmds := [Cmd s_srv [s_s] false false true false [] []
+                   [Cmd s_add [s_a] false false true false [] [a_opt] []; Cmd s_del [s_d] false false true false [] [] [];
+                    Cmd s_x1 [] true true true false [o_nov] [] []; Cmd s_x2 [] true true true false [o_req] [a_opt] []];
+                 Cmd s_top [] true false true false [] [] []] |}.
+Definition cmds0 : list bcmd := match build_app cfg with Ok ap => ap_cmds ap | Err _ => [] end.
+Definition selected (toks : list str) : res (list str) :=
+  do ap <- build_app cfg; do r <- resolve ap toks; Ok (fst (fst r)).
+Definition t_flag3 : str := [45;45;102;108;97;103;61;51]%N.    (* --flag=3 *)
+
+Theorem options_after_the_path_change_the_default_refuted :
+  forallb lead_ok [s_srv] = true /\ starts_dash t_flag3 = true /\
+  selected [s_srv] = Ok [s_srv; s_x1] /\ selected ([s_srv] ++ [t_flag3]) = Ok [s_srv; s_x2].
+Proof. vm_compute. repeat split. Qed.
+Print Assumptions options_after_the_path_change_the_default_refuted.
+Theorem tail_changes_the_default_refuted :
+  selected [s_srv] = Ok [s_srv; s_x1] /\ selected ([s_srv] ++ [[DASH; DASH]; [122]%N]) = Ok [s_srv; s_x2].
+Proof. vm_compute. repeat split. Qed.
+Print Assumptions tail_changes_the_default_refuted.
+
+(* ---- the hypotheses are satisfiable on that tree (depth 2, aliases, two anonymous defaults) ---- *)
+Example tree_is_distinct : cmds0 <> [] /\ tree_distinct cmds0.
+Proof.
+  split; [vm_compute; discriminate|].
+  assert (forall l : list bcmd, l = [] -> tree_distinct l) as Leaf.
+  { intros l ->. constructor; [constructor|intros b []]. }
+  unfold cmds0. vm_compute build_app. constructor.
+  - unfold siblings_distinct. cbn. repeat (constructor; [cbn; intuition discriminate|]). constructor.
+  - intros b [<-|[<-|[]]]; cbn [b_subs]; [|apply Leaf; reflexivity]. constructor.
+    + unfold siblings_distinct. cbn. repeat (constructor; [cbn; intuition discriminate|]). constructor.
+    + intros b [<-|[<-|[<-|[<-|[]]]]]; apply Leaf; reflexivity.
+Qed.
+Example respelled_path : respells cmds0 [s_srv; s_add; [122]%N] [s_s; s_a; [122]%N].
+Proof.
+  unfold cmds0. vm_compute build_app.
+  eapply rs_step; [left; reflexivity|left; reflexivity|right; left; reflexivity|]. cbn [b_subs].
+  eapply rs_step; [left; reflexivity|left; reflexivity|right; left; reflexivity|]. apply rs_same.
+Qed.
+Example walk_instance : exists b, walk (named_of cmds0) None [s_s; s_a; [122]%N] = Ok (Some (b, [s_srv; s_add])) /\ b_name b = s_add.
+Proof. vm_compute. eexists. split; reflexivity. Qed.
+Example selections :
+  selected [s_s; s_a] = Ok [s_srv; s_add] /\ selected [s_srv; s_add; [122]%N] = Ok [s_srv; s_add] /\
+  selected [] = Ok [s_top] /\ selected [[122]%N] = Err CannotResolve /\ selected [s_srv; t_flag3] = Ok [s_srv; s_x2].
+Proof. vm_compute. repeat split. Qed.
+(* the hypotheses of the default-choice theorems on that tree: below srv the defaults are x1, x2 (in that order); the line
+   srv --flag=3 cannot be parsed for x1 (its --flag takes no value) and parses for x2 *)
+Example default_choice_instance :
+  match walk (named_of cmds0) None [s_srv] with
+  | Ok (Some (b, p)) =>
+    p = [s_srv] /\
+    match defaults_of (b_subs b) with
+    | [d1; d2] => b_name d1 = s_x1 /\ b_name d2 = s_x2 /\ cannot [s_srv; t_flag3] d1 /\
+                  (exists a, parse (b_fmt d2) (b_lenient d2) [s_srv; t_flag3] = Ok a) /\
+                  (exists a, parse (b_fmt d1) (b_lenient d1) [s_srv] = Ok a)
+    | _ => False end
+  | _ => False end.
+Proof. vm_compute. repeat split; try reflexivity; eexists; reflexivity. Qed.
+(* and of same_leading_tokens_same_selection: below "top" there is no default sub-command *)
+Example one_default_instance :
+  match walk (named_of cmds0) None [s_top] with
+  | Ok (Some (b, p)) => length (defaults_of (b_subs b)) <= 1 /\ leading [s_top; t_flag3] = leading [s_top]
+  | _ => False end.
+Proof. vm_compute. split; [lia|reflexivity]. Qed.
